@@ -18,6 +18,15 @@ class InjectedFault(RuntimeError):
     pass
 
 
+class InjectedOtherFault(Exception):
+    """A failure that is none of the numerical exception types (e.g. raised by a back-end wrapper)."""
+
+
+# what a failing inner linear solve may raise: a numerical error, exhaustion of memory in the
+# factorisation, anything else derived from Exception
+FAULT_KINDS = [InjectedFault, MemoryError, InjectedOtherFault]
+
+
 class ScalarVS(list):
     """Voxel sizes equal on every axis and handed to ``darsia.Grid`` as ONE float."""
 
@@ -264,6 +273,7 @@ def run_solver(method, shape, vs, m1, m2, o, weight=None, fault_at=None, sched=N
     res.exc = None
     res.calls = 0
     res.faulted_at = None
+    res.fault_kind = None
     res.captured = None
     try:
         obj = cls(grid, wimg, opts)
@@ -286,11 +296,13 @@ def run_solver(method, shape, vs, m1, m2, o, weight=None, fault_at=None, sched=N
             res.loop_calls += 1
         if state["fault_at"] is not None and in_loop and res.loop_calls == state["fault_at"]:
             res.faulted_at = res.loop_calls
-            raise InjectedFault(f"injected failure of the linear solve of iteration {res.loop_calls - 1}")
+            raise FAULT_KINDS[state["fault_at"] % len(FAULT_KINDS)](f"injected failure of the linear solve of iteration {res.loop_calls - 1}")
         if state["sched"] is not None and in_loop:
-            if state["sched"].choose(2) == 1:
+            c = state["sched"].choose(1 + len(FAULT_KINDS))
+            if c:
                 res.faulted_at = res.loop_calls
-                raise InjectedFault(f"injected failure of the linear solve of iteration {res.loop_calls - 1}")
+                res.fault_kind = FAULT_KINDS[c - 1].__name__
+                raise FAULT_KINDS[c - 1](f"injected failure of the linear solve of iteration {res.loop_calls - 1}")
         # conditioning of the system handed to the solver (flux-block diagonal = face weights)
         try:
             d = np.abs(a[0].diagonal()[: grid.num_faces])
